@@ -222,6 +222,57 @@ impl C10 {
     }
 }
 
+impl C10 {
+    /// forked: one staker tops a position up in twelve consecutive epochs without claiming (twelve
+    /// and more weight snapshots), then leaves the LP token through the emergency exit of every
+    /// open position there: no weight of theirs may stay in effect
+    fn many_snapshots_probe(&mut self, w: &mut World, s: &Step, rep: &mut Reporter) {
+        let cands: Vec<&mantra_dex_std::farm_manager::Position> = s.fpost.positions.values().filter(|p| p.open && p.lp_asset.amount.u128() < 10u128.pow(20)).collect();
+        let pos = match cands.get(s.idx / 7 % cands.len().max(1)) {
+            Some(p) => (*p).clone(),
+            None => return,
+        };
+        let (u, lp) = (pos.receiver.clone(), pos.lp_asset.denom.clone());
+        let snap = w.snapshot();
+        let fm_addr = w.fm.to_string();
+        let mut tops = 0;
+        for _ in 0..12 {
+            w.advance(w.cfg.epoch_duration);
+            w.mint_to(&u, coin(10, lp.clone()));
+            if w.apply(&pos_op(&u, PositionAction::Expand { identifier: pos.identifier.clone() }, vec![coin(10, lp.clone())])).is_ok() {
+                tops += 1;
+            }
+        }
+        let before = fobserve(w);
+        let snaps = before.weights.get(&(u.to_string(), lp.clone())).map(|h| h.len()).unwrap_or(0);
+        let mut left = true;
+        for p in before.positions.values().filter(|p| p.open && p.receiver == u && p.lp_asset.denom == lp) {
+            left &= w.apply(&pos_op(&u, PositionAction::Withdraw { identifier: p.identifier.clone(), emergency_unlock: Some(true) }, vec![])).is_ok();
+        }
+        if !left || tops < 11 {
+            rep.count("no_open_no_weight", "many_snapshots_probe: could not build the history or leave");
+            w.restore(&snap);
+            return;
+        }
+        let f = fobserve(w);
+        let cur = f.epoch.unwrap_or(0);
+        let own = weight_at(f.weights.get(&(u.to_string(), lp.clone())), cur + 1);
+        let stale: Vec<(u64, u128)> = f.weights.get(&(u.to_string(), lp.clone())).map(|h| h.iter().map(|(e, x)| (*e, *x)).collect()).unwrap_or_default();
+        if own != 0 {
+            rep.failed("no_open_no_weight", None, format!("{} left the LP token (every open position withdrawn) after {snaps} weight snapshots, but a weight of {own} stays in effect", w.name_of(u.as_str())), witness(json!({"lp": lp, "snapshots_left": stale, "snapshots_before_leaving": snaps})));
+        } else {
+            rep.held("no_open_no_weight", hash_of(&("left_after_many_snapshots", snaps.min(14))), || json!({"lp": lp, "snapshots_before_leaving": snaps, "weight_in_effect_after_leaving": "0"}));
+        }
+        // and the total still covers the users
+        let total = weight_at(f.weights.get(&(fm_addr.clone(), lp.clone())), cur + 1);
+        let sum: BigInt = f.weights.iter().filter(|((a, d), _)| *a != fm_addr && *d == lp).map(|(_, h)| bi(weight_at(Some(h), cur + 1))).sum();
+        if bi(total) < sum {
+            rep.failed("total_ge_sum", None, format!("after a staker with {snaps} snapshots left: total weight {total} < sum of users {sum}"), witness(json!({"lp": lp, "total": total.to_string(), "sum_users": sum.to_string()})));
+        }
+        w.restore(&snap);
+    }
+}
+
 fn lp_denoms(f: &FObs) -> BTreeSet<String> {
     f.weights.keys().map(|(_, d)| d.clone()).collect()
 }
@@ -379,6 +430,9 @@ impl Monitor for C10 {
         }
         if s.idx % (2 * self.sweep_every) == self.sweep_every + 7 {
             self.huge_probe(w, s, rep);
+        }
+        if s.idx % (2 * self.sweep_every) == self.sweep_every + 11 {
+            self.many_snapshots_probe(w, s, rep);
         }
         let _ = (fobserve as fn(&World) -> FObs, ToPrimitive::to_u64(&0u8));
     }
